@@ -69,7 +69,7 @@ def mk_elem(rng, depth, k, plain=False):
         return {'t': 'use', 'name': 'm%d' % k[0], 'macro_onerror': rng.random() < 0.5, 'fb': 'M%d' % k[0], 'kids': kids}
     return {'t': 'elem', 'tag': rng.choice(['p', 'div', 'b', 'i']), 'attrs': rng.choice([[], [('class', 'c')], [('id', 'x'), ('title', 'T')], [('class', ''), ('id', 'x')], [('alt', '')]]),
             'onerror': rng.random() < 0.5, 'fb': 'F%d' % k[0], 'structure': rng.random() < 0.2,
-            'wrap': rng.choice([None, None, None, 'define', 'omit', 'condition', 'translate'] + ([] if plain else ['macro'])), 'kids': kids}
+            'wrap': rng.choice([None, None, None, 'define', 'omit', 'omit-true', 'condition', 'translate'] + ([] if plain else ['macro'])), 'kids': kids}
 
 
 def to_src(n, defs=None, lib=False):
@@ -99,6 +99,9 @@ def to_src(n, defs=None, lib=False):
         a += ' tal:define="q 1"'
     elif n['wrap'] == 'omit':
         a += ' tal:omit-tag=""'
+    elif n['wrap'] == 'omit-true':
+        # a tal:omit-tag expression that says "omit": no tags, in the normal rendering and in the fallback alike
+        a += ' tal:omit-tag="%s"' % ('True' if len(n['fb']) % 2 else "'y'")
     elif n['wrap'] == 'condition':
         a += ' tal:condition="True"'
     elif n['wrap'] == 'translate':
@@ -146,7 +149,7 @@ def expected(n, st):
             st['nontrivial'] = True
             return '<p><span>%s</span></p>' % n['fb']
     a = ''.join(' %s="%s"' % kv for kv in n['attrs'])
-    omit = n['wrap'] == 'omit'
+    omit = n['wrap'] in ('omit', 'omit-true')
     reps = 2 if n['wrap'] == 'repeat' else 1
 
     def body():
